@@ -35,6 +35,8 @@ pub enum VOp {
     MergeTree(u8, usize),
     /// merge a right graph that is not a tree (shared child + cycle) at `left`
     MergeNonTree(usize),
+    /// merge a right graph that reaches one vertex along two paths (forces join()) at `left`
+    MergeJoin(usize),
     Reload,
     CloneSwap,
     Exports,
@@ -89,6 +91,7 @@ fn alphabet(c: &Cfg) -> Vec<VOp> {
         ops.push(VOp::MergeTree(2, l));
         ops.push(VOp::MergeNonTree(l));
     }
+    ops.push(VOp::MergeJoin(0));
     ops.push(VOp::MergeSelf(0, 1));
     ops.push(VOp::Reload);
     ops.push(VOp::CloneSwap);
@@ -120,6 +123,26 @@ fn non_tree<const N: usize>() -> (Sodg<N>, usize) {
     h.bind(2, 3, lab(0)); // shared child
     h.bind(3, 0, lab(0)); // and a cycle
     h.put(3, &dat(1));
+    (h, 0)
+}
+
+/// the right graph of the crate's own test merges_a_loop, with heap data on the shared vertex
+fn join_right<const N: usize>() -> (Sodg<N>, usize) {
+    let mut h: Sodg<N> = Sodg::empty(8);
+    h.add(0);
+    h.add(4);
+    h.bind(0, 4, lab(2));
+    h.add(3);
+    if N >= 2 {
+        h.bind(0, 3, lab(0));
+    }
+    h.bind(4, 3, lab(1));
+    h.add(5);
+    if N >= 2 {
+        h.bind(3, 5, lab(2));
+    }
+    h.put(3, &dat(6));
+    h.put(5, &dat(0));
     (h, 0)
 }
 
@@ -186,7 +209,7 @@ pub fn demand(m: &Model, op: &VOp) -> Demand {
                 Demand::Nothing
             }
         }
-        VOp::MergeSelf(..) | VOp::MergeNonTree(_) => Demand::Nothing,
+        VOp::MergeSelf(..) | VOp::MergeNonTree(_) | VOp::MergeJoin(_) => Demand::Nothing,
         VOp::Reload | VOp::CloneSwap | VOp::Exports => Demand::MustComplete,
     }
 }
@@ -241,6 +264,10 @@ fn apply<const N: usize>(g: &mut Sodg<N>, op: &VOp) -> Result<bool, String> {
         }
         VOp::MergeNonTree(left) => {
             let (h, right) = non_tree::<N>();
+            g.merge(&h, *left, right).is_err()
+        }
+        VOp::MergeJoin(left) => {
+            let (h, right) = join_right::<N>();
             g.merge(&h, *left, right).is_err()
         }
         VOp::Reload => {
@@ -527,17 +554,44 @@ pub fn overflow_histories() -> Vec<(String, usize, usize, Vec<VOp>)> {
             out.push((format!("label no. {} on vertex {v} of Sodg<{n}>", n + 1), n, cap, ops));
         }
     }
-    // the 15th..40th group: nothing is demanded but memory safety
-    {
+    // the 15th..40th group: nothing is demanded but memory safety. High ids: if a member list is
+    // ever written past its end, the vertex ids that land in its bookkeeping send the next
+    // accesses far outside the allocation, where the sanitizer sees them.
+    for base in [0usize, 500] {
         let mut ops = vec![];
         for i in 0..40usize {
-            ops.extend([VOp::Add(2 * i), VOp::Add(2 * i + 1), VOp::Bind(2 * i, 2 * i + 1, 0), VOp::Put(2 * i, 0)]);
+            let (x, y) = (base + 2 * i, base + 2 * i + 1);
+            ops.extend([VOp::Add(x), VOp::Add(y), VOp::Bind(x, y, 0), VOp::Put(x, 0)]);
         }
+        ops.push(VOp::Exports);
         for i in 0..40usize {
-            ops.push(VOp::Data(2 * i));
+            ops.push(VOp::Data(base + 2 * i));
         }
         tail(&mut ops);
-        out.push(("40 groups at once".to_string(), 2, 82, ops));
+        // and a second round on the same (possibly damaged) object
+        for i in 0..20usize {
+            let (x, y) = (base + 2 * i, base + 2 * i + 1);
+            ops.extend([VOp::Add(x), VOp::Add(y), VOp::Bind(y, x, 0), VOp::Put(y, 1), VOp::Data(y)]);
+        }
+        tail(&mut ops);
+        out.push((format!("40 groups at once, ids from {base}"), 2, base + 82, ops));
+    }
+    // merges that have to join() two vertices (the right graph reaches one vertex along two
+    // paths, one of which the left graph already has), with heap and inline data on every vertex
+    for heap_on in 0..6usize {
+        for variant in 0..2 {
+            // left: 0 -l0-> 1 -l1-> 2 ; right is `JoinRight`: 0 -l2-> 4, 0 -l0-> 3, 4 -l1-> 3, 3 -l2-> 5
+            let mut ops = vec![VOp::Add(0), VOp::Add(1), VOp::Bind(0, 1, 0), VOp::Add(2), VOp::Bind(1, 2, 1)];
+            for v in 0..3usize {
+                ops.push(VOp::Put(v, if v == heap_on % 3 || heap_on >= 3 { 1 } else { 0 }));
+            }
+            if variant == 1 {
+                ops.extend([VOp::Data(1), VOp::Put(1, 1)]);
+            }
+            ops.push(VOp::MergeJoin(0));
+            ops.extend([VOp::Exports, VOp::Data(2), VOp::Data(1), VOp::Data(0), VOp::CloneSwap, VOp::Reload, VOp::NextId, VOp::Exports, VOp::MergeJoin(0), VOp::Exports]);
+            out.push((format!("merge with join(), heap data placement {heap_on}, variant {variant}"), 3, 12, ops));
+        }
     }
     // ids at and above the capacity in every position
     for cap in [1usize, 3] {
